@@ -383,6 +383,51 @@ Example closure_error_drops_refuted_pinned :
   end = [Some "2.0"; Some "1.0"; Some "2.0"; None]%string.
 Proof. repeat split; vm_compute; reflexivity. Qed.
 
+(* Products declared under the fall-back flavor.  p3, p2, p1 are declared under generic (config c_flavors), the
+   running flavor is Linux64; p4 -> p3 -> p2 -> p1.  Eups.setup finds them (it tries the fall-back flavors) and
+   records them with -f generic.  The dependency lists are inputs of this model: the pinned app.getDependencies /
+   Table.dependencies looked under the running flavor only and reported nothing below p3 - with that list only
+   p3 is pinned and the exact replay sets up neither p2 nor p1; with the list the repaired code reports
+   (proposed_fixes/C17-fallback-flavor-closure) all three are, and the replay records them again, -f generic *)
+Definition gcfg : config :=
+  {| c_flavor := lit "Linux64"; c_root := lit "/s"; c_max_depth := None; c_keep := false;
+     c_flavors := [ (lit "p1", lit "1.0", lit "generic"); (lit "p2", lit "1.0", lit "generic");
+                    (lit "p3", lit "2.0", lit "generic") ] |}.
+Definition gworld : world :=
+  [ xprod "p1" "1.0" []; xprod "p2" "1.0" [ASetup false (lit "p1") false];
+    xprod "p3" "2.0" [ASetup false (lit "p2") false];
+    xprod "p4" "1.0" [ASetup false (lit "p3") false; ASet (lit "FOO_1") (lit "bar")] ].
+Definition genv : amap str :=
+  match setup gworld gcfg 5 xst0 [Some (lit "1.0"); Some (lit "2.0"); Some (lit "1.0"); Some (lit "1.0")]
+              (lit "p4") true 0 false with
+  | RDone true st' [] => s_env st'
+  | _ => []
+  end.
+Definition graw : rawdeps :=
+  [ (lit "p3", lit "2.0", [ {| d_name := lit "p2"; d_optional := false; d_depth := 1 |};
+                            {| d_name := lit "p1"; d_optional := false; d_depth := 2 |} ]) ].
+Definition glines : list tline :=
+  [ LSetup (sl false "p3" [] None None "setupRequired(p3)"); LOther (lit "envSet(FOO_1, bar)") ].
+Definition gout : list oline :=
+  match expand gworld genv (lit "p4") [] false graw glines with Ok out => out | Err _ => [] end.
+Definition gworld' : world :=
+  [ xprod "p1" "4.0" [];
+    xprod "p4" "1.0" (exact_actions xinterp (exact_view gout) ++ map absent_action [lit "implicitProducts"]) ] ++
+  filter (fun p => negb (str_eqb (p_name p) (lit "p4"))) gworld.
+Example fallback_flavor_lists_refuted_pinned :
+  option_map String.string_of_list_ascii (alookup (lit "SETUP_P3") genv) = Some "p3 2.0 -f generic -Z /s"%string /\
+  option_map (fun o => shown (pins_of o)) (ok_out (expand gworld genv (lit "p4") [] false [] glines))
+    = Some [("p3", "2.0", false)]%string /\
+  shown (pins_of gout) = [("p3", "2.0", false); ("p2", "1.0", false); ("p1", "1.0", false)]%string /\
+  match setup gworld' gcfg 2 xst0 (forced_decisions (lit "1.0") (pins_of gout) [lit "implicitProducts"])
+              (lit "p4") true 0 false with
+  | RDone true st' [] => map (fun n => option_map String.string_of_list_ascii (alookup (setup_var (lit n)) (s_env st')))
+                             ["p4"; "p3"; "p2"; "p1"]%string
+  | _ => []
+  end = [Some "p4 1.0 -f Linux64 -Z /s"; Some "p3 2.0 -f generic -Z /s"; Some "p2 1.0 -f generic -Z /s";
+         Some "p1 1.0 -f generic -Z /s"]%string.
+Proof. repeat split; vm_compute; reflexivity. Qed.
+
 (* a diamond with a conflict (a 1.0 and a 2.0 both wanted): only the version that is set up is pinned *)
 Example conflict_pins_the_set_up_version :
   option_map (fun o => shown (pins_of o)) (ok_out (expand xworld xenv (lit "top") [] false xraw xlines))
